@@ -30,7 +30,9 @@ RULE = ('case = (victim program, scenario, n): a child process (/venv/bin/python
         'O_APPEND file; the parent detects the death WITHOUT reaping (waitid WNOWAIT), takes a fresh non-blocking acquire '
         'while the victim is still a zombie and again after waitpid (probe1 = both), lets the survivor release, and '
         'probes again.  Programs *_helper: the holder starts a long-lived helper process (close_fds=False) as soon as it '
-        'is inside; "blocked behind the survivor" is read from /proc/<pid>/syscall (flock), not from elapsed time.  The model runs the victim for exactly the logged number of steps (ops and results must match), '
+        'is inside; programs refork*: acquire, release, os.fork() a long-lived bystander child while the lock is FREE, '
+        'acquire again (scenario alone only): the bystander shares whatever descriptors the victim kept open between '
+        'the two uses, so a kill while holding for the second time must still free the lock; "blocked behind the survivor" is read from /proc/<pid>/syscall (flock), not from elapsed time.  The model runs the victim for exactly the logged number of steps (ops and results must match), '
         'applies ECrash, and predicts waiter success and both probes.  quick: every 3rd..4th crash point of every '
         '(program, scenario) with a seed-dependent offset; thorough: every crash point.  non-trivial = the victim really '
         'died and had completed at least two primitives.')
@@ -57,8 +59,16 @@ PROGS = {
     'blocking_helper': (False, -1, [['acq', 0, 'plain', True, None, 51, 0], ['rel', 0, False]]),
     'nested_helper': (True, -1, [['acq', 0, 'plain', True, None, 51, 0], ['acq', 0, 'plain', True, None, 51, 0],
                                  ['rel', 0, False], ['rel', 0, False]]),
+    # acquire, release, os.fork() a long-lived bystander while the lock is free, acquire again, release
+    'refork': (False, -1, [['acq', 0, 'plain', True, None, 51, 0], ['rel', 0, False],
+                           ['acq', 0, 'plain', True, None, 51, 0], ['rel', 0, False]]),
+    'refork_nested': (True, -1, [['acq', 0, 'plain', True, None, 51, 0], ['acq', 0, 'plain', True, None, 51, 0],
+                                 ['rel', 0, True], ['acq', 0, 'plain', True, None, 51, 0], ['rel', 0, False]]),
 }
 SCENS = ['alone', 'holder', 'waiter']
+# programs that are only run in some scenarios (behind a holder the refork victims never reach the fork; with a
+# waiter started at the first success they block behind it for good before the second acquire)
+PROG_SCENS = {'refork': ['alone'], 'refork_nested': ['alone']}
 SCEN_CODE = {'alone': 0, 'holder': 1, 'waiter': 2}
 BLOCKS_BEHIND_HOLDER = {'blocking', 'with', 'nested', 'nested_force', 'blocking_helper', 'nested_helper'}
 
@@ -92,7 +102,8 @@ def explain_exprs(case, o):
 def corpus():
     return [mk('blocking', 'alone', 30), mk('nested', 'waiter', 50), mk('timed', 'holder', 60),
             mk('blocking', 'holder', 0), mk('with', 'waiter', 27), mk('nested_force', 'alone', 55),
-            mk('blocking_helper', 'alone', 40), mk('nested_helper', 'alone', 48), mk('blocking_helper', 'waiter', 38)]
+            mk('blocking_helper', 'alone', 40), mk('nested_helper', 'alone', 48), mk('blocking_helper', 'waiter', 38),
+            mk('refork', 'alone', 78), mk('refork_nested', 'alone', 88), mk('refork', 'alone', 50)]
 
 
 def _dry(args):
@@ -104,7 +115,7 @@ _counts_cache = {}
 
 def line_counts():
     if not _counts_cache:
-        jobs = [(p, s) for p in PROGS for s in SCENS]
+        jobs = [(p, s) for p in PROGS for s in PROG_SCENS.get(p, SCENS)]
         with mp.get_context('fork').Pool(min(C.NPROC, 8)) as pool:
             for k, v in pool.map(_dry, jobs):
                 _counts_cache[k] = v
@@ -161,15 +172,21 @@ def distribution(cases, obs):
     return d
 
 
-LEVEL_TEXT = ('props/C13.v proves on the model (coq/theories/FLock.v; lemmas in FLockCrash.v on top of the C02 invariants), for '
+LEVEL_TEXT = ('props/C13.v proves on the model (coq/theories/FLock.v; lemmas in FLockCrash.v on top of the C02 invariants '
+              'FLockInv/TL/FD/Mutex.v; FLockExec.v step equations; monitors: FLockMon13.v on top of FLockAcq/Rel/Term/Seq.v, '
+              'FLockSound.v), for '
               'every reachable state = whatever point of acquire()/release() (blocking, timed, polling, reentrant-nested, '
-              'mid-release) the threads of the victim and of everybody else have reached, under any OSError script: '
+              'mid-release) the threads of the victim and of everybody else have reached, under any fault script (OSError / '
+              'KeyboardInterrupt flavour): '
               'crash_releases (after ECrash p no open file description of p remains; a lock held through a descriptor of p is '
               'free; a lock still held is held by the same, open descriptor of a live process other than p), mutex_after_crash '
               '(the C02 theorem over event lists containing crashes), acquirable_after_crash (if no survivor holds or is giving up '
               'the lock, an idle contender of a live process gets True from its first attempt, any flavour, 4 primitive steps, no '
               'waiting), no_soft_state (two runs differing only in the lock file\'s content agree on every other component: '
-              'nothing ever reads the file).  The crash semantics itself is the kernel assumption; it is validated by SIGKILLing '
+              'nothing ever reads the file), monitor_sound (model-free reading of an accepted observation) and monitor_complete '
+              '(for every victim program on its own object killed after any number of primitive steps, in each of the three '
+              'scenarios with the waiter started after the death, Case_C13.ok accepts what the model predicts; gaps: waiter '
+              'started before the crash, victim not dead).  The crash semantics itself is the kernel assumption; it is validated by SIGKILLing '
               'a real victim at every line event of aiuti/filelock.py and comparing what the parent / survivors observe with the '
               'model\'s prediction for the pc the victim had reached.')
 LEVEL_NOTE = ('trusted: Coq kernel + vm_compute; no axioms; kernel releases flock on process death (= the model\'s ECrash: '
